@@ -170,7 +170,7 @@ class OutputBuffer:
 
     def v(self, s: str, write_now: bool = False) -> 'OutputBuffer':
         '''Prints a message if verbose output is enabled.'''
-        if self.verbose or self.debug:
+        if (self.verbose and not self.json) or self.debug:  # Verbose progress messages would corrupt JSON output, so they are only shown with it in debug mode.
             self.info(s)
             if write_now:
                 self.write()
